@@ -505,3 +505,563 @@ def _loop_counter_plus(ex, lid, v: Term, k: int) -> bool:
                 if is_const(lr.init.get(x.args[1], C(None))) and cval(lr.init[x.args[1]]) == 0 and _is_incr(lr.next.get(x.args[1]), x, 1):
                     return True
     return False
+
+
+# ===================================================================================== writer-side semantic rules
+def canon_segs(segs) -> str:
+    return canon(show_segs(segs, 40))
+
+
+def _region(wb: Binding, name):
+    r = wb.fields[name][0]
+    assert r[0] == "region"
+    return list(r[1])
+
+
+def _self_attr(t: Term, attr: str) -> bool:
+    t = unsnap(t)
+    return t.op == "attr" and t.args[1] == attr and unsnap(t.args[0]).op == "param" and unsnap(t.args[0]).args[0] == "self"
+
+
+def _iter_source(t: Optional[Term]) -> Optional[Term]:
+    """strip enumerate() from an iteration source"""
+    if t is None:
+        return None
+    t = unsnap(t)
+    if t.op == "iterview" and t.args[0] == "enumerate":
+        return unsnap(t.args[1])
+    return t
+
+
+def writer_rules(m: Bf3Model, chk, pid, want=None):
+    if m.wb is None:
+        return
+    wb, ex = m.wb, m.exfull
+    w = m.writer
+    fn_dir = BF3 + ".Bf3File.dir_to_binary"
+    fn_bin = BF3 + ".Bf3File.to_binary"
+    where_dir = "%s:%d" % (m.fi_dir.file, m.fi_dir.lineno)
+    where_bin = "%s:%d" % (m.fi_tobin.file, m.fi_tobin.lineno)
+    P = lambda s: "%s.%s" % (pid, s)
+    W = lambda s: want is None or s in want
+    # ---- length prefixes denote the real size of what follows
+    if W("length-prefix"):
+        for lenname, regname in (("dir_size", "directory"), ("entry_len", "entry"), ("desc_len", "desc")):
+            seg = wb.field(lenname)
+            v = unsnap(seg[2])
+            ok = v.op == "len"
+            detail = ""
+            if ok:
+                try:
+                    got = canon_segs(w.flatten(v.args[0]))
+                except Unsupported as u:
+                    got = "<%s>" % u
+                want_s = canon_segs(_region(wb, regname))
+                ok = got == want_s
+                detail = "" if ok else "prefix counts %s but the region emitted is %s" % (got[:160], want_s[:160])
+            else:
+                detail = "value %s is not the length of the emitted region" % show(v, 4)
+            chk.require(ok, P("length-prefix"), fn_dir, "%s = len(%s)" % (lenname, regname), where_dir,
+                        "the %s field is len() of exactly the byte string emitted as region '%s'" % (lenname, regname), detail)
+        tl, tv = wb.field("tag_len"), wb.field("tag_value")
+        v = unsnap(tl[2])
+        chk.require(v.op == "len" and unsnap(v.args[0]) is unsnap(tv[1]), P("length-prefix"), fn_dir, "tag_len = len(tag_value)", where_dir,
+                    "tag length byte is len() of the tag value emitted next", "tag length %s is not len() of the emitted tag value %s" % (show(v, 4), show(tv[1], 4)))
+        st, pm, pay = wb.field("stored"), wb.field("pmac"), wb.field("payload")
+        v = unsnap(st[2])
+        data, key, iv = mac_args(pm[1])
+        ok = v.op == "len" and unsnap(v.args[0]) is unsnap(data) and canon(unsnap(data)) == canon(unsnap(pay[1]))
+        chk.require(ok, P("length-prefix"), fn_dir, "stored = len(raw payload) = MACed bytes = bytes in payload area", where_dir,
+                    "the stored-length field, the payload MAC input and the bytes written to the payload area are the same expression (component.get_raw_data(session_key))",
+                    "stored=%s, pmac over %s, payload area %s are not the same bytes" % (show(v, 4), show(data, 4), show(pay[1], 4)))
+    # ---- declared length
+    if W("declared-from-component"):
+        de = wb.field("declared")
+        v = unsnap(de[2])
+        src = _iter_source(wb.field("entry#iter"))
+        ok = v.op == "attr" and v.args[1] == "actual_len" and unsnap(v.args[0]).op == "elem" and src is not None and _self_attr(src, "components")
+        chk.require(ok, P("declared-from-component"), fn_dir, "declared = component.actual_len", where_dir, "declared-length field is the component's actual_len", "declared-length field is %s" % show(v, 4))
+    # ---- absolute, contiguous addresses
+    if W("absolute-addresses"):
+        adr = wb.field("adr")
+        v = unsnap(adr[2])
+        lid = wb.loops["entry"]
+        lr = ex.loops[lid]
+        ok, why = False, "address field is not a running offset carried by the entry loop"
+        if v.op == "loopvar" and v.args[0] == lid:
+            nm = v.args[1]
+            init, nxt = unsnap(lr.init.get(nm, C(None))), unsnap(lr.next.get(nm, C(None)))
+            st = unsnap(wb.field("stored")[2])
+            step_ok = nxt.op == "bin" and nxt.args[0] == "Add" and any(unsnap(a) is v and unsnap(b) is st for a, b in ((nxt.args[1], nxt.args[2]), (nxt.args[2], nxt.args[1])))
+            if not step_ok:
+                why = "address does not advance by exactly the stored length of each payload (next = %s)" % show(nxt, 5)
+            # init = offset + len(<size-pass directory>)
+            init_ok = False
+            if init.op == "bin" and init.args[0] == "Add":
+                for a, b in ((unsnap(init.args[1]), unsnap(init.args[2])), (unsnap(init.args[2]), unsnap(init.args[1]))):
+                    if a.op == "param" and a.args[0] == "offset" and b.op == "len":
+                        try:
+                            pass1 = w.flatten(b.args[0])
+                            dir_part = [s for s in m.wsegs[: len(m.wsegs) - 1]]
+                            init_ok = seg_len_expr(pass1) == seg_len_expr(dir_part)
+                            if not init_ok:
+                                why = "size pass yields %s bytes, real directory %s" % (seg_len_expr(pass1)[:120], seg_len_expr(dir_part)[:120])
+                        except Unsupported as u:
+                            why = "size pass not interpretable: %s" % u
+            if not init_ok and step_ok and "size pass" not in why:
+                why = "first address is not offset + total size of (size field + directory) (init = %s)" % show(init, 5)
+            ok = step_ok and init_ok
+        chk.require(ok, P("absolute-addresses"), fn_bin, "adr_0 = offset + len(dir bytes); adr_{i+1} = adr_i + stored_i", where_bin,
+                    "addresses are absolute file offsets: start at offset + size of the size field and directory (size pass has the same symbolic length as the real pass) and advance by the stored length", why)
+    # ---- MACs
+    if W("mac-coverage-iv"):
+        em, pm = wb.field("emac"), wb.field("pmac")
+        data, key, iv = mac_args(em[1])
+        entry = _region(wb, "entry")
+        try:
+            got = canon_segs(w.flatten(data))
+        except Unsupported as u:
+            got = "<%s>" % u
+        want_s = canon_segs(entry[:-1])
+        lid = wb.loops["entry"]
+        tb = int_to_bytes_of(unsnap(iv)) if iv is not None and iv is not NONE else None
+        iv_ok = bool(tb) and tb[1] == 16 and tb[2] == "big" and unsnap(tb[0]).op == "bin" and unsnap(tb[0]).args[0] == "Add" and _loop_counter_plus(ex, lid, unsnap(tb[0]), 1)
+        if tb and not iv_ok:
+            v = unsnap(tb[0])
+            lr = ex.loops[lid]
+            iv_ok = tb[1] == 16 and tb[2] == "big" and v.op == "loopvar" and v.args[0] == lid and is_const(lr.init.get(v.args[1], C(None))) and cval(lr.init[v.args[1]]) == 1 and _is_incr(lr.next.get(v.args[1]), v, 1)
+        key_ok = unsnap(key).op == "param" and unsnap(key).args[0] == "session_key"
+        chk.require(got == want_s and entry[-1] is em, P("mac-coverage-iv"), fn_dir, "emac = MAC(all of the entry before emac)", where_dir,
+                    "entry MAC input is exactly the concatenation of the entry's earlier fields", "entry MAC covers %s, entry prefix is %s" % (got[:160], want_s[:160]))
+        chk.require(iv_ok, P("mac-coverage-iv"), fn_dir, "emac IV = U128be(1 + entry index)", where_dir, "IV is the 1-based entry index as 16-byte big-endian integer", "entry MAC IV is %s" % (show(iv, 5) if iv is not None else None))
+        pdata, pkey, piv = mac_args(pm[1])
+        pkey_ok = unsnap(pkey).op == "param" and unsnap(pkey).args[0] == "session_key"
+        chk.require(key_ok and pkey_ok and (piv is None or piv is NONE), P("mac-coverage-iv"), fn_dir, "MAC key = session_key; payload MAC IV = default", where_dir,
+                    "both MACs are keyed with the session key parameter; the payload MAC uses the default (zero) IV", "MAC key/IV arguments deviate (key %s / %s, payload iv %s)" % (show(key, 3), show(pkey, 3), show(piv, 3) if piv is not None else None))
+    # ---- iteration order
+    if W("directory-order"):
+        e_src = _iter_source(wb.field("entry#iter"))
+        p_src = _iter_source(wb.field("payloads#iter"))
+        ok = e_src is not None and p_src is not None and _self_attr(e_src, "components") and _self_attr(p_src, "components")
+        chk.require(ok, P("directory-order"), fn_bin, "entries and payloads both iterate self.components in order", where_bin,
+                    "directory entries and the payload area are both produced by iterating self.components front to back",
+                    "entries iterate %s, payloads iterate %s" % (show(wb.field("entry#iter"), 4), show(wb.field("payloads#iter"), 4)))
+        pay = unsnap(wb.field("payload")[1])
+        mc = meth_call(pay)
+        k_ok = bool(mc) and mc[1] == "get_raw_data" and mc[2] and unsnap(mc[2][0]).op == "param" and unsnap(mc[2][0]).args[0] == "session_key"
+        chk.require(k_ok, P("directory-order"), fn_bin, "payload = component.get_raw_data(session_key)", where_bin, "payload bytes are produced with the caller's session key", "payload bytes are %s" % show(pay, 4))
+
+
+def envelope_writer_rules(m: Bf3Model, chk, pid):
+    """write_file: signature + offset; write_bf3_format: comment lines, blank line, 40-byte upper-case hex lines"""
+    prog = m.prog
+    P = lambda s: "%s.%s" % (pid, s)
+    # ---- write_file
+    fi = prog.func(BF3 + ".Bf3File.write_file")
+    ex = Exec(prog, policy=lambda e, f, d: False)
+    res = ex.run(fi)
+    calls = [e for e in res.events if e.kind == "call" and e.d["callee"].name == "write_bf3_format"]
+    where = "%s:%d" % (fi.file, fi.lineno)
+    want_sig = bytes.fromhex(SPEC["bf3_signature_hex"])
+    ok, why = False, "write_file does not call write_bf3_format exactly once"
+    if len(calls) == 1:
+        args = calls[0].d["args"]
+        raw = unsnap(args[-1]) if args else None
+        cm = unsnap(args[-2]) if len(args) >= 2 else None
+        why = "binary passed to the text writer is not signature + to_binary(len(signature), session_key)"
+        if raw is not None and raw.op == "bin" and raw.args[0] == "Add" and is_const(raw.args[1]) and cval(raw.args[1]) == want_sig and is_call_named(unsnap(raw.args[2]), "to_binary"):
+            tb = unsnap(raw.args[2])
+            a = list(tb.args[1])
+            a = a[1:] if a and unsnap(a[0]).op in ("ref",) else a
+            kw = dict(tb.args[2])
+            off = a[0] if a else kw.get("offset")
+            key = a[1] if len(a) > 1 else kw.get("session_key")
+            ok = off is not None and is_const(off) and cval(off) == len(want_sig) and key is not None and unsnap(key).op == "param" and unsnap(key).args[0] == "session_key"
+            if not ok:
+                why = "to_binary is called with offset %s / key %s (documented: offset = signature length 5, caller's key)" % (show(off, 3) if off is not None else None, show(key, 3) if key is not None else None)
+        if ok and not (cm is not None and _self_attr(cm, "comments")):
+            ok, why = False, "comments passed to the text writer are not self.comments"
+    chk.require(ok, P("signature+offset"), fi.qualname, "BF3_FILE_SIG + to_binary(len(BF3_FILE_SIG), session_key)", where,
+                "file starts with 'BF3\\0\\0' and the body is serialised with start offset 5", why)
+    # ---- write_bf3_format
+    fi = prog.func(BF3 + ".Bf3File.write_bf3_format")
+    ex = Exec(prog, policy=lambda e, f, d: f.name == "<lambda>" or f.parent is not None)
+    res = ex.run(fi)
+    where = "%s:%d" % (fi.file, fi.lineno)
+    writes = [e for e in res.events if e.kind == "mcall" and e.d["name"] == "write"]
+    T = SPEC["text"]
+    ok, why = len(writes) == 3, "expected three write sites (comments, blank line, hex lines), found %d" % len(writes)
+    if ok:
+        w_comments, w_blank, w_hex = writes
+        loops_c = [f for f in w_comments.ctx if f[0] == "loop"]
+        loops_h = [f for f in w_hex.ctx if f[0] == "loop"]
+        if not loops_h or [f for f in w_blank.ctx if f[0] == "loop"]:
+            ok, why = False, "comment block / separator / hex lines are not written in that order"
+    if ok:
+        sep = unsnap(w_blank.d["args"][0])
+        if not (is_const(sep) and cval(sep) == T["separator"]):
+            ok, why = False, "separator between comments and data is %s, documented one empty line" % show(sep, 3)
+    if ok:
+        # comment lines: "".join(map(lambda tup: FORMAT.format(*tup), comments.items()))
+        t = unsnap(w_comments.d["args"][0])
+        fmt_ok = False
+        elt = it = None
+        if t.op == "join" and is_const(t.args[0]) and cval(t.args[0]) == "" and unsnap(t.args[1]).op == "comp" and not loops_c:
+            cp = unsnap(t.args[1])
+            elt, it = unsnap(cp.args[1]), unsnap(cp.args[2])
+        elif loops_c:
+            # one write per comment inside a for-loop over the mapping's items
+            lrc = ex.loops[loops_c[-1][1]]
+            elt, it = t, (unsnap(lrc.iter) if lrc.iter is not None else None)
+        if elt is not None and it is not None:
+            fm = meth_call(elt)
+            im = meth_call(it)
+            src_ok = bool(im) and im[1] == "items" and unsnap(im[0]).op == "param" and unsnap(im[0]).args[0] == "comments"
+            if fm and fm[1] == "format" and is_const(fm[0]) and cval(fm[0]) == T["comment_format"] and src_ok:
+                a = [unsnap(x) for x in fm[2]]
+                if len(a) == 1 and a[0].op == "star" and unsnap(a[0].args[0]).op == "elem":
+                    fmt_ok = True
+                elif len(a) == 2 and a[0].op in ("sub", "elem", "key") and a[1].op in ("sub", "elem", "value") and a[0] is not a[1]:
+                    fmt_ok = True
+        if not fmt_ok:
+            ok, why = False, "comment lines are not produced as %r per (key, value) of the comments mapping (%s)" % (T["comment_format"], show(t, 5)[:160])
+    if ok:
+        lid = loops_h[-1][1]
+        lr = ex.loops[lid]
+        arg = unsnap(w_hex.d["args"][0])
+        # arg == upper(hex(rawdata[pos:pos+K])) + "\n"
+        line_ok = False
+        K = T["hex_bytes_per_line"]
+        if arg.op == "bin" and arg.args[0] == "Add" and is_const(arg.args[2]) and cval(arg.args[2]) == "\n":
+            up = meth_call(unsnap(arg.args[1]))
+            if up and up[1] == "upper":
+                hx = meth_call(unsnap(up[0]))
+                if hx and hx[1] == "hex" and not hx[2]:
+                    sl = unsnap(hx[0])
+                    if sl.op == "slice" and unsnap(sl.args[0]).op == "param" and unsnap(sl.args[0]).args[0] == "rawdata" and sl.args[3] is NONE:
+                        lo, hi = unsnap(sl.args[1]), unsnap(sl.args[2])
+                        pos = lr.target
+                        if lo is pos and hi.op == "bin" and hi.args[0] == "Add" and ((unsnap(hi.args[1]) is pos and is_const(hi.args[2]) and cval(hi.args[2]) == K) or (unsnap(hi.args[2]) is pos and is_const(hi.args[1]) and cval(hi.args[1]) == K)):
+                            line_ok = True
+        if not line_ok:
+            ok, why = False, "a data line is not upper-case hex of rawdata[pos:pos+%d] followed by a newline (%s)" % (K, show(arg, 6))
+        else:
+            it = unsnap(lr.iter) if lr.iter is not None else None
+            rng_ok = False
+            if it is not None and it.op == "range" and len(it.args[0]) == 3:
+                a0, a1, a2 = [unsnap(x) for x in it.args[0]]
+                if is_const(a0) and cval(a0) == 0 and is_const(a2) and cval(a2) == K:
+                    # stop = len(rawdata) + c with 0 <= c < K
+                    c = _len_plus_const(a1, "rawdata")
+                    rng_ok = c is not None and 0 <= c < K
+            if not rng_ok:
+                ok, why = False, "line loop is not range(0, len(rawdata)+c, %d) with 0 <= c < %d (iterates %s)" % (K, K, show(it, 5) if it is not None else None)
+    chk.require(ok, P("text-envelope"), fi.qualname, "comments 'k: v' lines, blank line, upper-case hex in 40-byte (80 column) lines covering all of rawdata", where,
+                "comment block, one empty line, then every byte of the binary as upper-case hex, 40 bytes per line", why)
+
+
+def _len_plus_const(t: Term, pname: str) -> Optional[int]:
+    """t == len(<param pname>) + c  (c folded from constants) -> c"""
+    t = unsnap(t)
+    if t.op == "len" and unsnap(t.args[0]).op == "param" and unsnap(t.args[0]).args[0] == pname:
+        return 0
+    if t.op == "bin" and t.args[0] in ("Add", "Sub"):
+        a, b = unsnap(t.args[1]), unsnap(t.args[2])
+        ca = _len_plus_const(a, pname)
+        if ca is not None and is_const(b) and isinstance(cval(b), int):
+            return ca + (cval(b) if t.args[0] == "Add" else -cval(b))
+        cb = _len_plus_const(b, pname)
+        if cb is not None and is_const(a) and isinstance(cval(a), int) and t.args[0] == "Add":
+            return cb + cval(a)
+    return None
+
+
+# ===================================================================================== envelope (text) reader, tag-value typing
+def _regex_class_chars(pattern: str):
+    """set of characters removed by re.sub(pattern, '') when pattern is a single character class / alternation of classes"""
+    import re
+
+    try:
+        import re._parser as sre_parse  # py311+
+    except ImportError:  # pragma: no cover
+        import sre_parse
+    tree = sre_parse.parse(pattern)
+    chars = set()
+
+    def add_in(items):
+        for op, av in items:
+            name = str(op)
+            if name == "LITERAL":
+                chars.add(chr(av))
+            elif name == "RANGE":
+                for c in range(av[0], av[1] + 1):
+                    chars.add(chr(c))
+            elif name == "CATEGORY":
+                cat = str(av)
+                for c in range(0, 128):
+                    ch = chr(c)
+                    if cat.endswith("CATEGORY_SPACE") and ch.isspace():
+                        chars.add(ch)
+                    elif cat.endswith("CATEGORY_DIGIT") and ch.isdigit():
+                        chars.add(ch)
+                    elif cat.endswith("CATEGORY_WORD") and (ch.isalnum() or ch == "_"):
+                        chars.add(ch)
+                    elif cat.endswith("NOT_SPACE") and not ch.isspace():
+                        chars.add(ch)
+                    elif cat.endswith("NOT_DIGIT") and not ch.isdigit():
+                        chars.add(ch)
+                    elif cat.endswith("NOT_WORD") and not (ch.isalnum() or ch == "_"):
+                        chars.add(ch)
+            elif name == "NEGATE":
+                raise ValueError("negated class")
+            else:
+                raise ValueError("unsupported class item %s" % name)
+
+    for op, av in tree:
+        name = str(op)
+        if name == "IN":
+            add_in(av)
+        elif name == "LITERAL":
+            chars.add(chr(av))
+        else:
+            raise ValueError("pattern is not a plain character class (%s)" % name)
+    return chars
+
+
+def envelope_reader_rules(m: Bf3Model, chk, pid):
+    prog = m.prog
+    P = lambda s: "%s.%s" % (pid, s)
+    # ---- hex2bin: removes every non-hex character the writer emits, removes no hex digit
+    fi = prog.func(BF3 + ".hex2bin")
+    ex = Exec(prog, policy=lambda e, f, d: False)
+    res = ex.run(fi)
+    where = "%s:%d" % (fi.file, fi.lineno)
+    subs = [e for e in res.events if e.kind == "extcall" and e.d["name"] in ("re.sub",)]
+    ok, why = len(subs) == 1, "hex2bin does not clean its input with exactly one re.sub"
+    if ok:
+        a = subs[0].d["args"]
+        if not (len(a) >= 3 and is_const(a[0]) and is_const(a[1]) and cval(a[1]) == "" and unsnap(a[2]).op == "param"):
+            ok, why = False, "re.sub is not applied as sub(<constant class>, '', <text>)"
+        else:
+            try:
+                removed = _regex_class_chars(cval(a[0]))
+                need = set("\n\r")
+                hexd = set("0123456789abcdefABCDEF")
+                if not need <= removed:
+                    ok, why = False, "separator characters %r written between hex lines are not removed before unhexlify" % sorted(need - removed)
+                elif removed & hexd:
+                    ok, why = False, "hex digits %r are removed from the data" % sorted(removed & hexd)
+            except ValueError as e:
+                ok, why = False, "cleaning pattern not analysable: %s" % e
+    if ok:
+        # the cleaned string (possibly fixed up for odd length) is what unhexlify receives
+        uh = [e for e in res.events if e.kind == "extcall" and e.d["name"].endswith("unhexlify")]
+        ok = len(uh) == 1 and unsnap(res.ret) is unsnap(uh[0].d["result"])
+        why = "hex2bin does not return unhexlify(cleaned text)"
+    chk.require(ok, P("hex-cleaning"), fi.qualname, "sub(r'[\\s,-/:]', '', text) -> unhexlify", where,
+                "the character class stripped before unhexlify contains the line separators the writer emits (\\n, and \\r for path I/O) and no hex digit", why)
+    # ---- parse_bf3_file
+    fi = prog.func(BF3 + ".Bf3File.parse_bf3_file")
+    ex = Exec(prog, policy=lambda e, f, d: False)
+    res = ex.run(fi)
+    where = "%s:%d" % (fi.file, fi.lineno)
+    T = SPEC["text"]
+    ok, why = True, ""
+    loops = [lr for lr in ex.loops.values() if lr.kind == "while"]
+    lr = loops[0] if len(loops) == 1 else None
+    if lr is None:
+        ok, why = False, "comment block is not parsed by a single while loop"
+    if ok:
+        r = rel(lr.cond, True) if lr.cond is not None else None
+        lv = None
+        if r and r[0] == "rel" and r[1] == "NotEq":
+            for x, y in ((r[2], r[3]), (r[3], r[2])):
+                if x.op == "loopvar" and is_const(y) and cval(y) == T["separator"]:
+                    lv = x
+        if lv is None:
+            ok, why = False, "comment loop does not stop exactly at the empty separator line (condition %s)" % (show(lr.cond, 4) if lr.cond is not None else None)
+        else:
+            nm = lv.args[1]
+            i, n = unsnap(lr.init.get(nm, C(None))), unsnap(lr.next.get(nm, C(None)))
+            im, nmx = meth_call(i), meth_call(n)
+            if not (im and nmx and im[1] == "readline" and nmx[1] == "readline" and unsnap(im[0]) is unsnap(nmx[0])):
+                ok, why = False, "comment loop does not advance line by line with readline()"
+    if ok:
+        sets = [e for e in res.events if e.kind == "setitem" and any(f[0] == "loop" and f[1] == lr.id for f in e.ctx)]
+        if len(sets) != 1:
+            ok, why = False, "comment loop does not store exactly one (key, value) per line"
+        else:
+            k, v = unsnap(sets[0].d["index"]), unsnap(sets[0].d["value"])
+            # k = line.split(":", 1)[0] ; v = line.split(":", 1)[1].strip()
+            def split_part(t, idx):
+                t = unsnap(t)
+                if t.op == "sub" and is_const(t.args[1]) and cval(t.args[1]) == idx:
+                    mc = meth_call(unsnap(t.args[0]))
+                    if mc and mc[1] == "split" and unsnap(mc[0]) is lv and len(mc[2]) == 2 and is_const(mc[2][0]) and cval(mc[2][0]) == ":" and is_const(mc[2][1]) and cval(mc[2][1]) == 1:
+                        return True
+                return False
+            vm = meth_call(v)
+            if not split_part(k, 0):
+                ok, why = False, "comment key is not the text before the first ':' (%s)" % show(k, 4)
+            elif not (vm and vm[1] == "strip" and not vm[2] and split_part(vm[0], 1)):
+                ok, why = False, "comment value is not the stripped text after the first ':' (%s)" % show(v, 4)
+    if ok:
+        rd = [e for e in res.events if e.kind == "mcall" and e.d["name"] == "read" and not e.d["args"]]
+        hb = [e for e in res.events if e.kind == "call" and e.d["callee"].name == "hex2bin"]
+        ok = len(rd) == 1 and len(hb) == 1 and unsnap(hb[0].d["args"][0]) is unsnap(rd[0].d["result"])
+        why = "the remaining text is not decoded as a whole by hex2bin"
+    if ok:
+        opens = [e for e in res.events if e.kind == "extcall" and e.d["name"] == "open"]
+        for o in opens:
+            kw = o.d["kwargs"]
+            a = o.d["args"]
+            mode = a[1] if len(a) > 1 else kw.get("mode", C("r"))
+            nl = kw.get("newline", NONE)
+            if not (is_const(mode) and cval(mode) in ("r", "rt")) or not (nl is NONE or (is_const(nl) and cval(nl) is None)):
+                ok, why = False, "file is not opened in universal-newline text mode for reading (mode %s, newline %s)" % (show(mode, 2), show(nl, 2))
+    chk.require(ok, P("text-parse"), fi.qualname, "lines 'key: value' until '\\n'; rest -> hex2bin", where,
+                "comment lines are split at the first ':' with the value stripped, the block ends at the empty line, the remainder is hex-decoded; path I/O uses universal newlines", why)
+    # writer side open(): newline translation must be undone by the reader's universal-newline mode
+    fiw = prog.func(BF3 + ".Bf3File.write_bf3_format")
+    exw = Exec(prog, policy=lambda e, f, d: False)
+    resw = exw.run(fiw)
+    opens = [e for e in resw.events if e.kind == "extcall" and e.d["name"] == "open"]
+    okw = True
+    whyw = ""
+    for o in opens:
+        kw = o.d["kwargs"]
+        a = o.d["args"]
+        mode = a[1] if len(a) > 1 else kw.get("mode", C("r"))
+        nl = kw.get("newline", NONE)
+        if not (is_const(mode) and cval(mode) in ("w", "wt")):
+            okw, whyw = False, "output file is opened with mode %s" % show(mode, 2)
+        if not (nl is NONE or (is_const(nl) and cval(nl) in (None, "\r\n", "\n", ""))):
+            okw, whyw = False, "output newline translation %s is not undone by universal-newline reading" % show(nl, 2)
+    chk.require(okw and len(opens) == 1, P("text-newlines"), fiw.qualname, "open(path, 'w', newline='\\r\\n') <-> open(path, 'r')", "%s:%d" % (fiw.file, fiw.lineno),
+                "the writer's newline translation (CRLF) is one that universal-newline reading maps back to '\\n'", whyw or "expected exactly one open() in the text writer")
+
+
+def tag_compare_rules(m: Bf3Model, chk, pid):
+    """TYPE: comparisons of description tag values must compare bytes with bytes; the ENC comparand must be the
+    encoding set_config writes (1-byte big-endian BF3ENC.SESSIONKEY)."""
+    from bfsa.types import type_of
+
+    prog = m.prog
+    ex, ev, rb = m.exr, m.res_read.events, m.rb
+    P = lambda s: "%s.%s" % (pid, s)
+    if rb is None:
+        return
+    tid = rb.field("tag_id")
+    stores = [e for e in ev if e.kind == "setitem" and _is_int_of(tid, e.d["index"])]
+    if not stores:
+        return
+    ddict = unsnap(stores[0].d["base"])
+    try:
+        enc_tag = prog.fold_class_attr(prog.cls(BF3 + ".BF3TAG"), "ENC")
+        enc_val = prog.fold_class_attr(prog.cls(BF3 + ".BF3ENC"), "SESSIONKEY")
+    except NotConst:
+        raise AnalysisError("BF3TAG.ENC / BF3ENC.SESSIONKEY not constant")
+    want = enc_val.to_bytes(1, "big")
+    found = 0
+    for e in ev:
+        if e.kind != "op" or e.d["op"] not in ("Eq", "NotEq", "In", "NotIn"):
+            continue
+        a, b = [unsnap(x) for x in e.d["args"]]
+        for look, other in ((a, b), (b, a)):
+            key = _desc_lookup(look, ddict)
+            if key is None:
+                continue
+            found += 1
+            to = type_of(ex, other)
+            is_enc = is_const(key) and cval(key) == enc_tag
+            construct = "description[%s] %s %s" % (show(key, 2), e.d["op"], show(other, 3))
+            if "?" in to:
+                chk.ok(P("tag-compare-types"), e.fn.qualname, construct, e.where, "comparand type not statically known; no verdict", nontrivial=False)
+            elif not (to & {"bytes", "bytearray"}) and e.d["op"] in ("Eq", "NotEq"):
+                chk.fail(P("tag-compare-types"), e.fn.qualname, construct, e.where,
+                         "description tag values are bytes (read from the directory); comparing with %s is always unequal, so the branch is dead: session-key encrypted components are handed back as ciphertext" % "/".join(sorted(to)))
+            elif is_enc and e.d["op"] in ("Eq", "NotEq") and not (is_const(other) and cval(other) == want):
+                chk.fail(P("tag-compare-types"), e.fn.qualname, construct, e.where, "ENC tag is compared with %s; the writer encodes session-key encryption as %r" % (show(other, 3), want))
+            else:
+                chk.ok(P("tag-compare-types"), e.fn.qualname, construct, e.where, "bytes compared with bytes" + (", equal to the writer's encoding of SESSIONKEY" if is_enc else ""))
+    if not found:
+        chk.fail(P("tag-compare-types"), BF3 + ".Bf3File.from_binary", "no comparison on the ENC tag", "", "the reader never inspects the ENC tag: encrypted components cannot be decrypted on read")
+    # decrypt-on-read path: from_encrypted_raw_data(description, payload, declared, session_key)
+    news = [e for e in ev if e.kind == "new" and e.d["cls"].name == "Bf3Component"]
+    dec = []
+    for nw in news:
+        args = list(nw.d["args"])
+        blob = unsnap(args[1]) if len(args) > 1 else None
+        mc = meth_call(blob) if blob is not None else None
+        if mc and mc[1] == "decrypt":
+            dec.append((nw, mc))
+    ok = len(dec) == 1
+    why = "no component is built from cipher.decrypt(payload)"
+    if ok:
+        nw, mc = dec[0]
+        ciph = unsnap(mc[0])
+        ok = is_call_named(ciph, "create_AES128") and len(ciph.args[1]) == 1 and unsnap(ciph.args[1][0]).op == "param" and unsnap(ciph.args[1][0]).args[0] == "session_key"
+        why = "decryption cipher is %s, documented AES-128-CBC under the session key with zero IV" % show(ciph, 4)
+        enc_flag = nw.d["kwargs"].get("encrypt_by_session_key")
+        if ok and not (enc_flag is not None and is_const(enc_flag) and cval(enc_flag) is True):
+            ok, why = False, "component decrypted on read is not marked encrypt_by_session_key (would be written back in clear)"
+    chk.require(ok, P("decrypt-on-read"), BF3 + ".Bf3Component.from_encrypted_raw_data", "create_AES128(session_key).decrypt(payload), flag kept", dec[0][0].where if dec else "",
+                "the ENC=SESSIONKEY arm decrypts the stored bytes with the session key (IV default) and keeps the encryption flag", why)
+
+
+def _desc_lookup(t: Term, ddict: Term):
+    """key term if t is description.get(key) / description[key] on (an element view of) the parsed tag dictionary"""
+    t = unsnap(t)
+    mc = meth_call(t)
+    if mc and mc[1] == "get" and strip_elem(mc[0]) is ddict and mc[2]:
+        return unsnap(mc[2][0])
+    if t.op == "sub" and strip_elem(t.args[0]) is ddict:
+        return unsnap(t.args[1])
+    return None
+
+
+def slot_source_rules(m: Bf3Model, chk, pid):
+    """writer takes tag list from component.description.items(), payload from get_raw_data (== blob when not encrypted)"""
+    wb, ex = m.wb, m.exfull
+    P = lambda s: "%s.%s" % (pid, s)
+    fn_dir = BF3 + ".Bf3File.dir_to_binary"
+    where = "%s:%d" % (m.fi_dir.file, m.fi_dir.lineno)
+    tid, tv = wb.field("tag_id"), wb.field("tag_value")
+    k, v = unsnap(tid[2]), unsnap(tv[1])
+
+    def comes_from_items(t, idx):
+        t = unsnap(t)
+        if t.op == "sub" and is_const(t.args[1]) and cval(t.args[1]) == idx:
+            t = unsnap(t.args[0])
+        elif t.op in ("key", "value"):
+            return (t.op == "key") == (idx == 0) and _is_desc(t.args[0])
+        else:
+            return False
+        inner = strip_elem(t)
+        mc = meth_call(inner)
+        return bool(mc) and mc[1] == "items" and _is_desc(mc[0])
+
+    def _is_desc(t):
+        t = unsnap(t)
+        return t.op == "attr" and t.args[1] == "description" and unsnap(t.args[0]).op == "elem"
+
+    chk.require(comes_from_items(k, 0) and comes_from_items(v, 1), P("tags-from-description"), fn_dir, "for tag_id, tag_value in component.description.items()", where,
+                "tag ids and values of the entry are the (key, value) pairs of the component's description", "tag id/value originate from %s / %s" % (show(k, 4), show(v, 4)))
+    # get_raw_data: plain arm returns self.blob
+    fi = m.prog.method(BF3 + ".Bf3Component", "get_raw_data")
+    exg = Exec(m.prog, policy=lambda e, f, d: False)
+    res = exg.run(fi)
+    rets = [e for e in res.events if e.kind == "return" and e.stack == (fi.qualname,)]
+    plain = [r for r in rets if any(f[0] == "if" and _flag_frame(f) is False for f in r.ctx)]
+    okp = len(plain) >= 1 and all(_self_attr(r.d["value"], "blob") for r in plain)
+    chk.require(okp, P("plain-payload-is-blob"), fi.qualname, "not encrypt_by_session_key -> return self.blob", "%s:%d" % (fi.file, fi.lineno),
+                "for components not marked for encryption the stored bytes are the blob itself", "plain arm does not return self.blob unchanged")
+
+
+def _flag_frame(f):
+    """polarity of 'encrypt_by_session_key is truthy' implied by an if-frame, None if the frame tests something else"""
+    c, pol = f[1], f[2]
+    r = rel(c, pol)
+    if r[0] == "rel" and r[1] in ("Truthy", "Falsy") and _self_attr(r[2], "encrypt_by_session_key"):
+        return r[1] == "Truthy"
+    return None
